@@ -124,7 +124,17 @@ class Prop(PropBase):
         size = z.shape[ax]
         bounds = [0] + list(case["cuts"]) + [size]
         pieces = []
+        # cut points spelled from the front, from the end (negative) or left open, as a user would write them
+        spell = (case["L"] + len(case["cuts"]) + case["n"]) % 3
+
+        def sp(v, is_stop):
+            if spell == 1 and 0 < v < size:
+                return v - size
+            if spell == 2 and ((v == 0 and not is_stop) or (v == size and is_stop)):
+                return None
+            return v
         for a, b in zip(bounds, bounds[1:]):
+            a, b = (a, b) if a == b else (sp(a, False), sp(b, True))
             if ax == 0:
                 p = z[a:b]
             elif ax == 1 and cls != "Signal":
